@@ -89,6 +89,78 @@ let show_descr (d : descr) : string =
       hex (implode (print_descr fprint true d)); hex (implode (print_descr fprint false d));
       (if generable_descr d then "T" else "F") ]
 
+
+(* ---- tiny s-expression reader for structured inputs ---- *)
+type sexp = A of string | L of sexp list
+let parse_sexp (s : string) : sexp =
+  let n = String.length s in
+  let pos = ref 0 in
+  let rec skip () = if !pos < n && (s.[!pos] = ' ' || s.[!pos] = '\n') then (incr pos; skip ()) in
+  let rec item () =
+    skip ();
+    if !pos >= n then failwith "sexp: eof"
+    else if s.[!pos] = '(' then begin
+      incr pos;
+      let rec items acc = skip ();
+        if !pos >= n then failwith "sexp: unclosed"
+        else if s.[!pos] = ')' then (incr pos; List.rev acc) else items (item () :: acc) in
+      L (items [])
+    end else begin
+      let st = !pos in
+      while !pos < n && s.[!pos] <> ' ' && s.[!pos] <> '(' && s.[!pos] <> ')' do incr pos done;
+      A (String.sub s st (!pos - st))
+    end in
+  item ()
+let atom = function A s -> s | L _ -> failwith "sexp: atom expected"
+let lst = function L l -> l | A _ -> failwith "sexp: list expected"
+let q_of_num_string s = q_of_string s
+let order_of_name = function
+  | "UNSPECIFIED" -> OUnspec | "SINGLE" -> OSingle | "DOUBLE" -> ODouble | "TRIPLE" -> OTriple
+  | "QUADRUPLE" -> OQuad | "ONEANDAHALF" -> OArom | s -> failwith ("order " ^ s)
+(* (d sym id weight trans order atom num)  sym: E for "", id/atom/trans: N for None *)
+let descr_of_sexp (x : sexp) : descr =
+  match lst x with
+  | [ A "d"; A sym; A id; A w; tr; A ord; A at; A num ] ->
+    { d_sym = (if sym = "E" then [] else explode sym);
+      d_id = (if id = "N" then None else Some (z_of_string id));
+      d_weight = num_of_string w;
+      d_trans = (match tr with A "N" -> None | L l -> Some (List.map (fun a -> num_of_string (atom a)) l) | _ -> failwith "trans");
+      d_order = order_of_name ord; d_pre = [];
+      d_atom = (if at = "N" then None else Some (z_of_string at)); d_num = z_of_string num }
+  | _ -> failwith "descr sexp"
+let gtoken_of_sexp (x : sexp) : gtoken =
+  match lst x with
+  | A "tok" :: A natoms :: A mass :: A ok :: bds ->
+    { t_natoms = z_of_string natoms; t_mass = q_of_string mass; t_bds = List.map descr_of_sexp bds; t_ok = (ok = "T") }
+  | _ -> failwith "token sexp"
+let gelem_of_sexp (x : sexp) : gelem =
+  match lst x with
+  | A "tok" :: _ -> ETok (gtoken_of_sexp x)
+  | [ A "st"; left; right; A gen; L (A "rep" :: reps); L (A "end" :: ends) ] ->
+    EStoch { s_left = descr_of_sexp left; s_right = descr_of_sexp right; s_rep = List.map gtoken_of_sexp reps;
+             s_end = List.map gtoken_of_sexp ends; s_generable = (gen = "T") }
+  | _ -> failwith "element sexp"
+
+let jlist f l = "[" ^ String.concat "," (List.map f l) ^ "]"
+let jstr s = "\"" ^ s ^ "\""
+let jq x = jstr (string_of_q x)
+let kind_name = function KTok -> "tok" | KRep -> "rep" | KEnd -> "end"
+let jref (r : rref) = Printf.sprintf "[%d,\"%s\",%d]" (int_of_nat r.r_elem) (kind_name r.r_kind) (int_of_nat r.r_idx)
+let jobd (o : obd) =
+  Printf.sprintf "{\"node\":%d,\"k\":%d,\"atom\":%s,\"sym\":%s,\"id\":%s,\"order\":%s,\"w\":%s}" (int_of_nat o.o_node) (int_of_nat o.o_k)
+    (opt string_of_z o.o_d.d_atom |> fun s -> if s = "None" then "null" else s) (jstr (implode o.o_d.d_sym))
+    (match o.o_d.d_id with None -> "null" | Some z -> string_of_z z) (jstr (order_name o.o_d.d_order)) (jstr (string_of_num o.o_d.d_weight))
+let jmol (g : molgen) =
+  Printf.sprintf "{\"res\":%s,\"natoms\":%s,\"log\":%s,\"open\":%s,\"mass\":%s}" (jlist (fun r -> jref (fst r)) g.m_res) (string_of_z g.m_natoms)
+    (jlist (fun r -> Printf.sprintf "{\"self\":%s,\"other\":%s,\"ref\":%s}" (jobd r.a_self) (jobd r.a_other) (jref r.a_ref)) g.m_log)
+    (jlist jobd g.m_open) (jq g.m_mass)
+let jevent = function
+  | EvChoice (c, p, k) -> Printf.sprintf "[\"c\",%s,%s,%d]" (jlist (fun n -> string_of_int (int_of_nat n)) c) (jlist jq p) (int_of_nat k)
+  | EvDraw t -> Printf.sprintf "[\"d\",%s]" (jq t)
+let jinfo (i : sinfo) =
+  Printf.sprintf "{\"T\":%s,\"start\":%s,\"units\":%s,\"exhausted\":%b}" (jq i.si_target) (jq i.si_start) (jlist jq i.si_units) i.si_exhausted
+let split_nonempty c s = List.filter (fun x -> x <> "") (String.split_on_char c s)
+
 let handle (fields : string list) : string =
   match fields with
   | [ "descr"; raw; num; pre; atom ] ->
@@ -101,6 +173,20 @@ let handle (fields : string list) : string =
            parse_descr (explode (unhex raw2)) Z0 (explode (unhex pre2)) (Some Z0) with
      | OK a, OK b -> if compatible a b then "T" else "F"
      | _, _ -> "ERR")
+  | [ "gen"; elems; pk; tg ] ->
+    let els = List.map gelem_of_sexp (lst (parse_sexp elems)) in
+    let pk = List.map (fun x -> nat_of_int (int_of_string x)) (split_nonempty ',' pk) in
+    let tg = List.map q_of_string (split_nonempty ',' tg) in
+    (match run_gen els pk tg with
+     | Done ((g, infos), st) ->
+       Printf.sprintf "{\"r\":\"done\",\"mol\":%s,\"infos\":%s,\"trace\":%s,\"picks_left\":%d,\"targets_left\":%d}"
+         (match g with None -> "null" | Some g -> jmol g) (jlist jinfo infos) (jlist jevent (List.rev st.trace))
+         (List.length st.picks) (List.length st.targets)
+     | GErr (e, m) -> Printf.sprintf "{\"r\":\"err\",\"class\":\"%s\",\"msg\":\"%s\"}" (err_name e) (implode m)
+     | NeedPicks k -> Printf.sprintf "{\"r\":\"needpicks\",\"k\":%d}" (int_of_nat k)
+     | NeedTarget -> "{\"r\":\"needtarget\"}"
+     | BadPick -> "{\"r\":\"badpick\"}"
+     | OutOfFuel -> "{\"r\":\"outoffuel\"}")
   | [ "float"; s ] ->
     (match py_float (explode (unhex s)) with None -> "ERR" | Some x -> string_of_num x ^ " " ^ implode (fprint x))
   | [ "repr"; s ] -> py_repr (float_of_string s)
